@@ -315,6 +315,7 @@ M('F31R', 'src/xdoctest/static_analysis.py', """            for child in node.or
                 self.visit(child)
             return""", """            return""", ['C07'], 'F31 repair reverted (1): the else branch of a main guard is skipped')
 M('F31bR', 'src/xdoctest/static_analysis.py', """        return names == ['__name__'] and values == ['__main__']""", """        return names == ['__name__'] and values == ['__main__'] and isinstance(test.left, ast.Name)""", ['C07'], 'F31 repair reverted (2): only the usual order of the main guard is recognised')
+M('F32R', 'src/xdoctest/parser.py', """            if want_lines and (mode_hint in {'eval', 'single'} or wants_traceback):""", """            if want_lines and mode_hint in {'eval', 'single'}:""", ['C03'], 'F32 repair reverted: an earlier exception is credited to a later traceback want')
 M('F17R', 'src/xdoctest/doctest_example.py', """                part_directive = None
                 try:
                     try:
